@@ -91,3 +91,4 @@ def replay_comment(obligation: str = "", model: Optional[Dict[str, str]] = None,
                 return {"confirmed": True, "input": {"target": target, "text": t}, "emitted": res,
                         "observed": "the emitted text is not a single comment", "judge": judge}
     return {"confirmed": False}
+
